@@ -73,13 +73,59 @@ func (e *c45env) become(i int) {
 
 var c45Builtin = map[string]bool{"payFees": true, "generate_challenge": true, "blobber_block_rewards": true, "commit_settings_changes": true}
 
+// c45Limits: block cost limit per configuration (0 = docker.local default 10000).
+//   tight: round 2: built-ins cost 2806, one faucet call 100, a send 10: one contract call fits, a second does not
+//   run2 / run3: round 1: built-ins cost 1956, a send 10: exactly 2 / 3 sends fit (generator skips when cost+c >= limit)
+var c45Limits = map[string]int{"default": 0, "tight": 2950, "run2": 1980, "run3": 1990}
+
 func c45Options(tight bool) world.Options {
-	o := c45OptionsBase()
 	if tight {
-		// round 2: built-ins cost 2806, one faucet call 100, a send 10: one contract call fits, a second does not
-		o.Viper["server_chain.block.max_block_cost"] = 2950
+		return c45OptionsFor("tight")
+	}
+	return c45OptionsFor("default")
+}
+
+func c45OptionsFor(cfg string) world.Options {
+	o := c45OptionsBase()
+	if l := c45Limits[cfg]; l > 0 {
+		o.Viper["server_chain.block.max_block_cost"] = l
 	}
 	return o
+}
+
+// c45Group maps a worker index (of 16) to its configuration and its shard within that group.
+func c45Group(idx int) (cfg string, gidx, gn int) {
+	switch {
+	case idx < 9:
+		return "default", idx, 9
+	case idx < 12:
+		return "tight", idx - 9, 3
+	case idx < 14:
+		return "run2", idx - 12, 2
+	default:
+		return "run3", idx - 14, 2
+	}
+}
+
+// runAlphabet: one sender (c0) with a run of consecutive nonces n+1..n+4, mixed with the other
+// sender's current, next and same-nonce transactions.
+func (e *c45env) runAlphabet(n []int64, salt string) []c45txn {
+	w := e.w
+	var out []c45txn
+	to := w.Clients[2].ID
+	fee := currency.Coin(1e8)
+	mk := func(s int, kind string, nonce int64, value, f currency.Coin) {
+		t := w.Txn(world.TxnSpec{From: w.Clients[s], To: to, Type: transaction.TxnTypeSend, Value: value, Fee: f, Nonce: nonce, Time: e.now})
+		out = append(out, c45txn{Name: fmt.Sprintf("%s(c%d,nonce=%d)", kind, s, nonce), Kind: kind, From: s, T: t})
+	}
+	mk(0, "ok", n[0]+1, 1100, fee)
+	mk(0, "fut1", n[0]+2, 1200, fee)
+	mk(0, "fut2", n[0]+3, 1300, 2*fee)
+	mk(0, "fut3", n[0]+4, 1400, 3*fee)
+	mk(1, "ok", n[1]+1, 2100, fee)
+	mk(1, "fut1", n[1]+2, 2200, fee)
+	mk(1, "dupfee", n[1]+1, 2300, 2*fee)
+	return out
 }
 
 func c45OptionsBase() world.Options {
@@ -231,9 +277,11 @@ func c45() {
 		c45worker(run, maxPool)
 		return
 	}
-	t := fanout(run)
+	t := fanoutN(run, 16)
 	report(run, t)
-	run.Rule = "previous state in {genesis, scripted round-1 successor} x generator x every ordered selection of <= k distinct transactions from the 16-letter alphabet (8 kinds x 2 senders) = every pool content in every pool iteration order; each case: real generateBlock, wire round trip, real VerifyBlock by another miner with a cold state cache; distinct = (previous state, sorted kinds in the pool, kinds included in block order, verification result) classes"
+	run.Bounds["configurations"] = "16 workers: 9 default cost limit (10000), 3 tight (2950, round-2 state), 2 run2 (1980) + 2 run3 (1990): round-1 state, limit = built-ins + 2 / 3 sends"
+	run.Bounds["run_alphabet"] = "c0: nonces n+1..n+4 (fees rising with the nonce); c1: n+1, n+2, n+1 with higher fee; pools of <= maxPool+1 in every order"
+	run.Rule = "previous state in {genesis, scripted round-1 successor} x generator x every ordered selection of <= k distinct transactions from the 16-letter alphabet (8 kinds x 2 senders) = every pool content in every pool iteration order; plus, under two small block cost limits (room for exactly 2 / 3 sends beyond the built-ins), every ordered selection of <= k+1 transactions from a 7-letter run alphabet (one sender's nonces n+1..n+4 in every order incl. descending, mixed with the other sender's) so that the second pass of generateBlock (promotion of parked future transactions) runs into the cost limit; each case: real generateBlock, wire round trip, real VerifyBlock by another miner with a cold state cache; distinct = (previous state, sorted kinds in the pool, kinds included in block order, verification result) classes"
 	run.Bounds["max_pool_size"] = maxPool
 	run.Bounds["alphabet"] = 16
 	run.Bounds["previous_states"] = 2
@@ -250,22 +298,23 @@ func c45() {
 func c45worker(run *ev.Run, maxPool int) {
 	idx, nsh, _ := shard()
 	deadline := workerDeadline(run, 170, 840)
-	// two configurations: 3/4 of the workers run the default block cost limit, 1/4 a tight one
-	// (only the round-2 previous state, where the limit bites)
-	tight := nsh >= 4 && idx >= nsh-nsh/4
-	if tight {
-		idx, nsh = idx-(nsh-nsh/4), nsh/4
-	} else if nsh >= 4 {
-		nsh = nsh - nsh/4
+	// four configurations in fixed worker groups (see c45Group); a run with another worker count
+	// (manual shard probes) runs the default configuration only
+	cfgKind := "default"
+	if nsh == 16 {
+		cfgKind, idx, nsh = c45Group(idx)
 	}
-	cfg := "default-cost-limit"
-	if tight {
-		cfg = "tight-cost-limit"
-	}
-	w := world.New(c45Options(tight))
+	tight := cfgKind == "tight"
+	runCfg := cfgKind == "run2" || cfgKind == "run3"
+	cfg := cfgKind + "-cost-limit"
+	w := world.New(c45OptionsFor(cfgKind))
 	m := setupMiner(w)
 	e := &c45env{m: m, w: w, now: common.Now()}
 	so := newShardOut()
+	if runCfg {
+		c45runWorker(run, e, so, cfgKind, cfg, idx, nsh, maxPool+1, deadline)
+		writeShard(so)
+	}
 
 	// previous states
 	type prev struct {
@@ -430,6 +479,43 @@ func c45case(e *c45env, so *shardOut, prevName string, parent *block.Block, ance
 	if cost > e.m.MC.ChainConfig.MaxBlockCost() {
 		so.violateSized(tag("generateBlock:cost-above-limit"), fmt.Sprintf("block cost %d > max_block_cost %d", cost, e.m.MC.ChainConfig.MaxBlockCost()), replay, len(sel))
 	}
+	// coverage of generateBlock's second pass (promotion of parked future transactions): walk the pool
+	// in iteration order; an included transaction whose nonce was not the sender's next one when it
+	// was iterated can only have entered through the second pass
+	{
+		nextN := append([]int64{}, nonces...)
+		lastIncl := append([]int64{}, nonces...)
+		lastFirstPass := []int{-1, -1}
+		for pos, j := range sel {
+			a := alpha[j]
+			if !seen[a.T.Hash] {
+				continue
+			}
+			if a.T.Nonce > lastIncl[a.From] {
+				lastIncl[a.From] = a.T.Nonce
+			}
+			if a.T.Nonce == nextN[a.From]+1 {
+				nextN[a.From]++
+				lastFirstPass[a.From] = pos
+				so.Counters["pool_txn_included_in_first_pass"]++
+			} else {
+				so.Counters["pool_txn_included_in_second_pass"]++
+			}
+		}
+		for pos, j := range sel {
+			a := alpha[j]
+			if seen[a.T.Hash] || a.T.Nonce != lastIncl[a.From]+1 || lastIncl[a.From] == nonces[a.From] || pos > lastFirstPass[a.From] {
+				continue
+			}
+			// parked before a first-pass success of its sender and next in line, yet left out
+			if c, err := e.m.MC.EstimateTransactionCost(e.m.Ctx, lfb, a.T, chain.WithSync()); err == nil && cost+c >= e.m.MC.ChainConfig.MaxBlockCost() {
+				so.Counters["second_pass_stopped_by_cost_limit"]++
+			}
+		}
+		if cost+10 >= e.m.MC.ChainConfig.MaxBlockCost() {
+			so.Counters["blocks_at_cost_limit"]++
+		}
+	}
 	genRoot := util.ToHex(b.ClientState.GetRoot())
 	genChanges := b.ClientState.GetChangeCount()
 
@@ -487,6 +573,77 @@ func c45case(e *c45env, so *shardOut, prevName string, parent *block.Block, ance
 	so.Counters["blocks_verified"]++
 	if so.States%211 == 1 {
 		so.sample(map[string]any{"previous_state": prevName, "pool": names, "included": included, "builtins": bi, "cost": cost, "verify": res})
+	}
+}
+
+// c45runWorker: the small-cost-limit configurations (run2 / run3) over the run alphabet.
+func c45runWorker(run *ev.Run, e *c45env, so *shardOut, cfgKind, cfg string, idx, nsh, maxPool int, deadline time.Time) {
+	w := e.w
+	_, n0 := world.Balance(w.Genesis.ClientState, w.Clients[0].ID)
+	_, n1 := world.Balance(w.Genesis.ClientState, w.Clients[1].ID)
+	nonces := []int64{n0, n1}
+	// the limit must leave room for exactly k sends beyond the round-1 built-ins
+	eb, err := e.generate(1, w.Genesis, nil, 1, 9001, nil)
+	if err != nil {
+		ev.Fatal("empty-pool block in %s: %v", cfgKind, err)
+	}
+	base := 0
+	for _, t := range eb.Txns {
+		c, err := e.m.MC.EstimateTransactionCost(e.m.Ctx, e.m.MC.GetLatestFinalizedBlock(), t, chain.WithSync())
+		if err != nil {
+			ev.Fatal("built-in cost: %v", err)
+		}
+		base += c
+	}
+	alpha := e.runAlphabet(nonces, cfgKind)
+	sendCost, err := e.m.MC.EstimateTransactionCost(e.m.Ctx, e.m.MC.GetLatestFinalizedBlock(), alpha[0].T, chain.WithSync())
+	if err != nil {
+		ev.Fatal("send cost: %v", err)
+	}
+	k := map[string]int{"run2": 2, "run3": 3}[cfgKind]
+	limit := e.m.MC.ChainConfig.MaxBlockCost()
+	if !(base+k*sendCost < limit && limit <= base+(k+1)*sendCost) {
+		ev.Fatal("%s: cost layout changed (built-ins %d, send %d, limit %d): adjust c45Limits", cfgKind, base, sendCost, limit)
+	}
+	so.Counters["run_config_builtin_cost"] = int64(base)
+	gens := []int{1}
+	if run.Thorough() {
+		gens = []int{1, 2}
+	}
+	counter := 0
+	for _, gen := range gens {
+		sel := make([]int, 0, maxPool)
+		var rec func()
+		rec = func() {
+			if len(sel) > 0 {
+				counter++
+				if counter%nsh == idx {
+					if so.Capped == "" && time.Now().After(deadline) {
+						so.Capped = "worker time budget reached"
+					}
+					if so.Capped == "" {
+						c45case(e, so, cfg+"/genesis", w.Genesis, nil, nonces, 1, gen, alpha, sel, counter%2 == 0)
+					}
+				}
+			}
+			if len(sel) == maxPool {
+				return
+			}
+			for i := range alpha {
+				used := false
+				for _, j := range sel {
+					if j == i {
+						used = true
+					}
+				}
+				if !used {
+					sel = append(sel, i)
+					rec()
+					sel = sel[:len(sel)-1]
+				}
+			}
+		}
+		rec()
 	}
 }
 
